@@ -241,7 +241,7 @@ func init() {
 		return fakepg.Describe(w.DB.Log[len(w.DB.Log)-1].SQL)
 	})
 
-	// bind schema [kv×4] stmt params order rnd → same | changed <values>
+	// bind schema [kv×4] stmt params order rnd → the parameter values as the database received them
 	core.Register("C04.bind", func(a []string) string {
 		w, s := miniWorld(a[0], a[1:5], core.UnHex(a[8]))
 		defer w.Close()
@@ -250,21 +250,13 @@ func init() {
 			return "closed"
 		}
 		vals, fm := extParams(parseParamsTok(a[6]))
-		_, o0 := s.C.Marks()
-		din0 := w.DB.In.Len()
 		if _, err := s.C.Extended(fakepg.Ext{Bind: true, Name: "s", Params: vals, PFmt: fm}); err != nil {
 			return "closed"
-		}
-		_, o1 := s.C.Marks()
-		sent := s.C.Out.Bytes()[o0:o1]
-		got := w.DB.In.Bytes()[din0:]
-		if bytes.Equal(sent, got) {
-			return "same"
 		}
 		if len(w.DB.Binds) == 0 {
 			return "nothing"
 		}
-		return "changed " + rawValsTok(w.DB.Binds[len(w.DB.Binds)-1].Params)
+		return "vals " + rawValsTok(w.DB.Binds[len(w.DB.Binds)-1].Params)
 	})
 
 	// plan schema stmt nvalues: which parameters change when every one of them is a text-format 'A'
